@@ -59,6 +59,7 @@ type Solver struct {
 	lastErr   string
 	shadow    *Solver // second solver mirrored for cross-checking assertion verdicts
 	dom       *byteDom // small-domain shortcut for single-byte queries (bytedom.go)
+	preHook   func()   // run before every Assert/Check (model_zz_grpa_scaled.go)
 }
 
 func newSolver(bin string, timeoutMs int, logPath string) (*Solver, error) {
@@ -224,6 +225,7 @@ func (s *Solver) Assert(t *Term) {
 	if t.op == "true" {
 		return
 	}
+	s.runPreHook()
 	s.define(t)
 	s.send("(assert " + t.ref() + ")")
 	if s.dom != nil && !domDisabled {
@@ -267,6 +269,7 @@ func (s *Solver) readSexp() (string, error) {
 // Check decides PC ∧ extra. Returns "sat", "unsat" or "unknown"; with a model
 // on sat when wantModel.
 func (s *Solver) Check(extra *Term, wantModel bool) (string, *Model) {
+	s.runPreHook()
 	if extra != nil {
 		if extra.op == "false" {
 			return "unsat", nil
